@@ -16,6 +16,7 @@ P = "gix_worktree_stream::protocol::"
 def run(db, chk):
     archive_buffer_rule(db, chk)
     entry_eof_rule(db, chk)
+    visit_path_tracking_rule(db, chk)
     m2b = tab.enum_to_const(db.one("^" + P + "mode_to_byte$"))
     b2m = tab.const_to_enum(db.one("^" + P + "byte_to_mode$"), 2)
     chk.floor("tables in mode_to_byte/byte_to_mode", len(m2b) + len(b2m), 2)
@@ -209,3 +210,33 @@ def entry_eof_rule(db, chk):
         chk.ob("end-mark-only-after-nonempty-read", "Entry::read remaining=Some(0)@%d" % ln, bool(good) and fl.cut_off([bi], good),
                "the entry is marked as finished after a read that may have been given an empty buffer: `entry.read(&mut [])` drops the rest of the entry and derails next_entry()",
                "%s:%d" % (f.file, ln), key="eof-mark|Entry::read")
+
+
+def visit_path_tracking_rule(db, chk):
+    """the stream's paths come from the breadth-first traversal delegate, which tracks the current path the way every Visit implementation in
+    the workspace does: push_back_tracked_path_component() pushes the component onto `self.path` and queues a COPY of it; the traversal then
+    pops the component again and expects the parent path to be back.  Sibling agreement over all non-trivial implementations of
+    Visit::push_back_tracked_path_component: the queued value is a clone of the path, and the path itself is not moved out, taken or cleared."""
+    fns = db.fns.values() if isinstance(db.fns, dict) else db.fns
+    impls = [f for f in fns if f.kind != "promoted" and f.name.endswith("::push_back_tracked_path_component") and any(c.is_(r"VecDeque::<T, A>::push_back$|::push_back$") for c in f.calls())]
+    chk.floor("Visit::push_back_tracked_path_component implementations that queue a path", len(impls), 4)
+    mine = [f for f in impls if f.crate == "gix_worktree_stream"]
+    chk.floor("the worktree-stream traversal delegate among them", len(mine), 1)
+    for f in impls:
+        fl = Flow(f)
+        pb = [c for c in f.calls() if c.is_(r"::push_back$") and len(c.args) > 1]
+        ok = bool(pb)
+        why = []
+        for c in pb:
+            from_clone = any(r[0] == "call" and r[1].endswith("::clone") for r in fl.roots(c.args[1], stop_named=False))
+            if not from_clone:
+                ok = False
+                why.append("queues a value that is not a clone of the path")
+        for c in f.calls():
+            if c.is_(r"mem::take$|mem::replace$|mem::swap$") and any(r[0] == "arg" and r[1] == 1 and ".path" in r[2] for a in c.args for r in (fl.roots(a, stop_named=False) if "p" in a else [])):
+                ok = False
+                why.append("moves the path out (%s)" % c.name.split("::")[-1])
+        label = "%s::%s" % (f.crate, re.sub(r".*for ([\w:]+).*", r"\1", f.name).split("::")[-1][:30])
+        chk.ob("queued-path-is-a-copy", label, ok,
+               "%s: after the component is popped the parent path is gone and every later sibling of that tree is emitted without its directory" % "; ".join(sorted(set(why))),
+               "%s:%d" % (f.file, f.line), key="visit-path|%s" % f.crate)
